@@ -1482,6 +1482,15 @@ func (r *runner) resync() {
 	r.ctx.Probe("model-resynced")
 }
 
+// faceCounters: the traffic counters of every face in the face table.
+func faceCounters() map[uint64][6]uint64 {
+	out := map[uint64][6]uint64{}
+	for _, f := range face.FaceTable.GetAll() {
+		out[f.FaceID()] = [6]uint64{f.NInInterests(), f.NInData(), f.NInBytes(), f.NOutInterests(), f.NOutData(), f.NOutBytes()}
+	}
+	return out
+}
+
 func (r *runner) doDataset(o *Op) {
 	m := r.m
 	fi := o.Face % len(r.links)
@@ -1502,6 +1511,7 @@ func (r *runner) doDataset(o *Op) {
 		}
 		name = append(name, enc.NewBytesComponent(enc.TypeGenericNameComponent, fb))
 	}
+	counters0 := faceCounters()
 	resp := r.inject(fi, name, true, false)
 	if req.scope != defn.Local {
 		if resp.got {
@@ -1583,7 +1593,19 @@ func (r *runner) doDataset(o *Op) {
 			if f.Mtu != nil {
 				mtu = *f.Mtu
 			}
-			got = append(got, fmt.Sprintf("%d:mtu=%d:scope=%d:lf=%v", f.FaceId, mtu, f.FaceScope, f.Flags&1 != 0))
+			got = append(got, fmt.Sprintf("%d:mtu=%d:scope=%d:lf=%v:pers=%d:link=%d:uri=%s", f.FaceId, mtu, f.FaceScope, f.Flags&1 != 0,
+				f.FacePersistency, f.LinkType, f.Uri))
+			// counters: the exchange that carries the dataset moves them, so each must lie between its value before
+			// the request and its value now
+			now := faceCounters()[f.FaceId]
+			was, known := counters0[f.FaceId]
+			vals := [6]uint64{f.NInInterests, f.NInData, f.NInBytes, f.NOutInterests, f.NOutData, f.NOutBytes}
+			names := [6]string{"NInInterests", "NInData", "NInBytes", "NOutInterests", "NOutData", "NOutBytes"}
+			for i := range vals {
+				if known && (vals[i] < was[i] || vals[i] > now[i]) {
+					r.fail("C17/dataset-differs-from-table", key+"/counters", "faces/list reports %s=%d for face %d; the face counted %d before the request and %d after the answer", names[i], vals[i], f.FaceId, was[i], now[i])
+				}
+			}
 		}
 		sort.Strings(got)
 		want := []string{}
@@ -1592,7 +1614,8 @@ func (r *runner) doDataset(o *Op) {
 			if ls, ok := f.(*face.NDNLPLinkService); ok {
 				lf = ls.Options().IsConsumerControlledForwardingEnabled
 			}
-			want = append(want, fmt.Sprintf("%d:mtu=%d:scope=%d:lf=%v", f.FaceID(), f.MTU(), uint64(f.Scope()), lf))
+			want = append(want, fmt.Sprintf("%d:mtu=%d:scope=%d:lf=%v:pers=%d:link=%d:uri=%s", f.FaceID(), f.MTU(), uint64(f.Scope()), lf,
+				uint64(f.Persistency()), uint64(f.LinkType()), f.RemoteURI().String()))
 		}
 		sort.Strings(want)
 		if strings.Join(got, " ") != strings.Join(want, " ") {
